@@ -38,6 +38,10 @@ PROPS = {
     "C03": ("c03", "Hidden-input invalidation of Nexus property nodes (for each public entry point of each fit class: fields written vs inputs of every "
                    "observable-reachable property node vs nodes marked on every path, over the static graph reconstructed by constant propagation), required "
                    "edges, did-fit / loaded-result coherence, re-selection of the cost node, freeze protocol bracket in do_fit, read-only getters."),
+    "C10": ("c10", "Formula-shape rules: the canonical polynomial form (Fraction coefficients, temporaries inlined, accumulate-loops summarised) of ndf in "
+                   "FitBase / ParametricModelBaseMixin / both constraint classes / MultiFit equals the documented formula; chi2 probability is "
+                   "1 - chi2.cdf(cost - determinant, ndf) with every determinant subtraction guarded by the flag that says the cost contains it; goodness of "
+                   "fit = cost(det:=0) - handle(model:=data); MultiFit overrides keep the terms of the base definitions."),
 }
 
 
